@@ -671,7 +671,7 @@ func TestVerif_C06_history(t *testing.T) {
 		}
 		return
 	}
-	verifkit.RapidSetup(1500, 150000)
+	verifkit.RapidSetup(1500, 80000)
 	rapid.Check(t, func(rt *rapid.T) {
 		c := c06Gen().Draw(rt, "case")
 		h := verifkit.Hash(c)
